@@ -20,7 +20,7 @@ def toRender (tag : Urls.Tree → Nat) (fname : Nat → String) : Urls.Tree → 
   | .node lv id num file kids =>
     .elem { tag := tag (.node lv id num file kids), level := lv, foot := false,
             id := labOf id,
-            title := none, ref := (if num = "" then none else some num), name := "" }
+            title := none, ref := (if num.num = "" then none else some num.num), name := "" }
           (file.map fname) (toRenderL tag fname kids)
 def toRenderL (tag : Urls.Tree → Nat) (fname : Nat → String) : List Urls.Tree → List (Render.ATree String)
   | [] => []
@@ -53,7 +53,7 @@ theorem child_node_none (tag : Urls.Tree → Nat) (fname : Nat → String) (lv i
   rw [toRender]; exact child_none' _ _ rfl
 
 /-- the content C13's render writes into the file of a file-producing node -/
-def fileToks (tag : Urls.Tree → Nat) (fname : Nat → String) (lv : Int) (id : Option Urls.Id) (num : String) (f : Nat)
+def fileToks (tag : Urls.Tree → Nat) (fname : Nat → String) (lv : Int) (id : Option Urls.Id) (num : Urls.Info) (f : Nat)
     (kids : List Urls.Tree) : List Render.Tok :=
   .lop (tag (.node lv id num (some f) kids)) ::
     (.op (tag (.node lv id num (some f) kids)) ::
